@@ -46,6 +46,7 @@ def pod_forms():
 
 
 STAGES = {
+    "e2e-day-pod": (e2e.obs_daypod, "DenoteTrace"),
     "rule-rows": (rows_for_day, "RulesTrace"),
     "e2e-forms": (e2e.obs_day, "DenoteTrace"),
     "e2e-dates": (e2e.obs_day, "DenoteTrace"),
@@ -103,6 +104,25 @@ def run(ctx):
                 c["D2"] = d2
             cases.append(c)
     core.run_stage(ctx, "e2e-forms", cases, e2e.obs_day, "DenoteTrace")
+    # <day> <part of day>: the day as written, the part of day kept (both orders where the rule base has them)
+    dp = []
+    podw = {"morning": ["morning", "vormittags"[:0] or "morgens"], "forenoon": ["vormittag", "forenoon"], "afternoon": ["afternoon", "nachmittags"],
+            "noon": ["noon", "mittags"], "evening": ["evening", "abends"], "night": ["night", "nachts"]}
+    dayf = [("rel", "tomorrow", G.day("rel", 1)), ("rel", "today", G.day("rel", 0)), ("date", "5.3.2021", G.day("date", 5, 3, 2021)),
+            ("date", "31.12.2019", G.day("date", 31, 12, 2019)), ("doy", "5.3.", G.day("doy", 5, 3)), ("dom", "31.", G.day("dom", 31)),
+            ("dow", "friday", G.day("dow", 4)), ("thisdow", "this monday", G.day("thisdow", 0)), ("nextdow", "next sunday", G.day("nextdow", 6))]
+    for pod, ws in podw.items():
+        if pod not in qa.T.pod_hours:
+            continue
+        for w in ws:
+            if w in G.LEX["tomorrow"]:
+                continue
+            for lab, dt, D in dayf:
+                for ts in tss[:2] + [(2019, 12, 31, 23, 59), (2020, 2, 28, 5, 0)]:
+                    dp.append({"text": dt + " " + w, "D": D, "pod": pod, "ts": ts, "label": "daypod:" + lab, "form": w})
+                    if lab in ("rel", "date"):
+                        dp.append({"text": w + " " + dt, "D": D, "pod": pod, "ts": ts, "label": "poddday:" + lab, "form": w})
+    core.run_stage(ctx, "e2e-day-pod", dp, e2e.obs_daypod, "DenoteTrace")
     # one form per expression on many reference dates
     reps = []
     for w in range(7):
